@@ -3,6 +3,7 @@ package checks
 import (
 	"context"
 	"encoding/json"
+	"errors"
 	"fmt"
 	"os"
 	"path"
@@ -266,7 +267,9 @@ func argTouchesSymlink(t fsmodel.Tree, arg string) bool {
 
 func runCopy(c c15Case, srcDir, dstDir string) error {
 	ci := fscopy.CopyInfo{CopyDirContents: c.DirC, AlwaysReplaceExistingDestPaths: c.Repl, AllowWildcards: c.Wild, ExcludePatterns: c.Exclude, FollowLinks: c.Follow}
-	return fscopy.Copy(context.Background(), srcDir, c.SrcArg, dstDir, c.DstArg, fscopy.WithCopyInfo(ci))
+	return boundedCopy(func() error {
+		return fscopy.Copy(context.Background(), srcDir, c.SrcArg, dstDir, c.DstArg, fscopy.WithCopyInfo(ci))
+	})
 }
 
 func judgeC15(c c15Case) (string, string) {
@@ -329,7 +332,13 @@ func judgeC15(c c15Case) (string, string) {
 	}
 	want, cf, inval := copyModel(modelCase, before)
 	err := runCopy(c, srcDir, dstDir)
+	if err == errCopyHangs {
+		return "copy-hangs", err.Error()
+	}
 	after, serr := fsmodel.Snapshot(dstDir)
+	if errors.Is(serr, fsmodel.ErrRootNotDir) {
+		return "destination-root-replaced", fmt.Sprintf("after the copy (%v) the destination root itself is no directory any more", err)
+	}
 	if serr != nil {
 		return "infra", serr.Error()
 	}
